@@ -96,6 +96,10 @@ fn run(job: &J) -> R<J> {
             let v = json_to_value(&job["v"])?;
             guarded(|| res_val(e.value(&v)))
         }
+        "expr_sql" => {
+            let e = json_to_expr(&job["expr"])?;
+            guarded(|| json!({"ok": qrlew::ast::Expr::from(&e).to_string()}))
+        }
         "expr_show" => {
             let e = json_to_expr(&job["expr"])?;
             json!({"ok": e.to_string()})
